@@ -4,6 +4,16 @@
 -/
 namespace HostTouch
 
+/-! Dynamic tie (harness/props/c01.py, recording host `spy`): every dunder the real agent touches must be EXPLAINED by a
+  row.  The explanation is closed under what CPython itself invokes on behalf of an allowed read:
+  `__repr__` ⇐ `repr` | `str` | `format` (a container renders its elements with repr; `str` falls back to `__repr__`);
+  `__str__`, `__format__` ⇐ `str` | `format`;  `__iter__` ⇐ `iter`;  `__len__` ⇐ `len` | `iter` (size hint) | `bool`;
+  `__getitem__` ⇐ `getitem` | `iter` (sequence-protocol iteration) | `contains`;  `__contains__` ⇐ `contains`;
+  `__eq__` ⇐ `eq` | `contains` | `getitem` | `method:get`;  `__hash__` ⇐ `hash` | `contains` | `getitem` | `method:get` | `iter`
+  (membership / dict-key / set operations on a CONTAINER holding the object);  `__bool__` ⇐ `bool`;
+  `__float__` / `__int__` / `__index__` ⇐ `number`.  Everything else (`__call__`, `__enter__`, `__next__`, arithmetic,
+  stores and deletes) is explained only by a row of its own kind — and those kinds are not allowed. -/
+
 /-- what the agent does with a value that can alias host state -/
 inductive Kind where
   | read      -- invokes a protocol of the value (dunder dispatch) without changing it, if the protocol is side-effect free
